@@ -6,6 +6,7 @@ open Drand.Driver.CodecD
 open Drand.Driver.CrashD
 open Drand.Driver.DispatchD
 open Drand.Driver.DkgD
+open Drand.Driver.DkgRunD
 open Drand.Driver.HashD
 open Drand.Driver.RouteD
 open Drand.Driver.SecrecyD
